@@ -1851,6 +1851,15 @@ def bits_parse_primary(p, no_struct):
     x = p.peek()
     if x.kind == "id" and x.text == "match":
         return bits_parse_match(p)
+    if x.kind == "id" and x.text == "size_of" and p.at("::", 1) and p.at("<", 2) and p.peek(3).kind == "id" \
+            and p.at(">", 4) and p.at("(", 5) and p.at(")", 6):
+        # `size_of::<T>()`: a named abstract constant (`size_of::<T>` must be declared in the spec)
+        for _ in range(3):
+            p.next()
+        t = p.next().text
+        for _ in range(3):
+            p.next()
+        return N("call", x.pos, path=["size_of::<%s>" % t], args=[])
     return None
 
 
@@ -2161,8 +2170,15 @@ def bits_abs_cmp(tr, e, code):
     if key not in ops:
         tr.err("`%s` on the generic type %r (no abstract operation declared in the spec)" % (e.op, lt), e)
     f = ops[key]
+    neg = False
+    if f.startswith("not:"):
+        f, neg = f[4:], True
+    if f.startswith("flip:"):
+        f, l, r = f[5:], r, l
     if f not in tr.used_abs:
         tr.used_abs.append(f)
+    if neg:
+        return "!(%s %s %s)" % (f, atom(l), atom(r)), TBool()
     return "%s %s %s" % (f, atom(l), atom(r)), TBool()
 
 
@@ -2216,6 +2232,11 @@ def bits_mcall(tr, e, code, expected):
 
 def bits_call(tr, e, code, expected):
     path = "::".join(e.path)
+    alias = dict(tr.unit.get("abs_alias", {}))
+    alias.update(tr.spec.get("abs_alias", {}))
+    if path in alias and not getattr(e, "aliased", False):
+        # a polymorphic function (`cast`) whose instance is fixed per translated function by the spec
+        return tr.call(N("call", e.pos, path=alias[path].split("::"), args=e.args, aliased=True), code, expected)
     if path in ("cmp::min", "std::cmp::min", "min") and len(e.args) == 2 and path not in tr.absfns:
         l, lt = tr.expr(e.args[0], code, expected)
         r, rt = tr.expr(e.args[1], code, lt)
@@ -2674,6 +2695,47 @@ unit(name="SrcBitEnc", props="property C18", file="src/data_structures/bitenc.rs
                      self_fields=BITENC_FIELDS, params=[("n", "usize"), ("value", "u8")], ret=None,
                      locals={"value_block": "u32"}, loop_shadow_ok=True,
                      theorem="RbV.Thm.GenSrcBitEncOps.pushValues_eq_model")])
+
+
+# (genbits) SmallInts<S, B>: the small and the big integer type are Lean type variables; `cast`, `S::max_value()`,
+# `size_of`, `<` on `S` are abstract parameters (the theorems instantiate them with the mirror model's range semantics);
+# `BTreeMap<usize, B>` is an association list (`Rs.mapInsert` / `Rs.mapGet`, RsSemBits.lean)
+SMALLINTS_ABS = {
+    "cast_bs": dict(lean="castBS", args=["B"], ret="Option<S>"),          # num_traits::cast::<B, S>
+    "cast_sb": dict(lean="castSB", args=["S"], ret="Option<B>"),          # num_traits::cast::<S, B>
+    "cast_zero": dict(lean="castZero", args=["i32"], ret="Option<S>"),    # num_traits::cast::<i32, S> (the literal 0)
+    "lt_s": dict(lean="ltS", args=["S", "S"], ret="bool"),                # `<` on S
+    "S::max_value": dict(lean="maxS", args=[], ret="S", is_value=True),
+    "size_of::<S>": dict(lean="sizeS", args=[], ret="usize", is_value=True),
+    "size_of::<B>": dict(lean="sizeB", args=[], ret="usize", is_value=True)}
+SMALLINTS_FIELDS = [("smallints", "Vec<S>"), ("bigints", "BTreeMap<usize, B>")]
+
+unit(name="SrcSmallInts", props="properties C18, C03", file="src/data_structures/smallints.rs",
+     imports=["RbV.Basic.RsSemBits"], generics={"S": "α", "B": "β"}, abstract_fns=SMALLINTS_ABS,
+     ops={"<:S": "ltS", ">:S": "flip:ltS", ">=:S": "not:ltS", "<=:S": "not:flip:ltS"},
+     self_calls={"real_value": dict(lean="SrcSmallInts.realValue", fields=["smallints", "bigints"], args=["usize", "S"],
+                                    ret="Option<B>", abs=True)},
+     functions=[dict(name="SmallInts::real_value", lean="realValue",
+                     header="fn real_value(&self, i: usize, v: S) -> Option<B>",
+                     self_fields=SMALLINTS_FIELDS, params=[("i", "usize"), ("v", "S")], ret="Option<B>",
+                     abs_alias={"cast": "cast_sb"}, theorem="RbV.Thm.GenSrcSmallInts.realValue_eq_model"),
+                dict(name="SmallInts::get", lean="get", header="pub fn get(&self, i: usize) -> Option<B>",
+                     self_fields=SMALLINTS_FIELDS, params=[("i", "usize")], ret="Option<B>",
+                     theorem="RbV.Thm.GenSrcSmallInts.get_eq_model"),
+                dict(name="SmallInts::push", lean="push", header="pub fn push(&mut self, v: B)",
+                     self_fields=SMALLINTS_FIELDS, params=[("v", "B")], ret=None,
+                     abs_alias={"cast": "cast_bs"}, theorem="RbV.Thm.GenSrcSmallInts.push_eq_model"),
+                dict(name="SmallInts::set", lean="set", header="pub fn set(&mut self, i: usize, v: B)",
+                     self_fields=SMALLINTS_FIELDS, params=[("i", "usize"), ("v", "B")], ret=None,
+                     abs_alias={"cast": "cast_bs"}, theorem="RbV.Thm.GenSrcSmallInts.set_eq_model"),
+                dict(name="SmallInts::from_elem", lean="fromElem", header="pub fn from_elem(v: S, n: usize) -> Self",
+                     params=[("v", "S"), ("n", "usize")], ret="(Vec<S>, BTreeMap<usize, B>)",
+                     struct_fields={"SmallInts": ["smallints", "bigints"]},
+                     struct_field_types={"SmallInts": dict(SMALLINTS_FIELDS)},
+                     abs_alias={"cast": "cast_zero"}, theorem="RbV.Thm.GenSrcSmallInts.fromElem_eq_model"),
+                dict(name="SmallInts::len", lean="len", header="pub fn len(&self) -> usize",
+                     self_fields=SMALLINTS_FIELDS, params=[], ret="usize",
+                     theorem="RbV.Thm.GenSrcSmallInts.len_eq_model")])
 
 
 unit(name="SrcBwt", props="property C04", file="src/data_structures/bwt.rs",
